@@ -200,7 +200,10 @@ def run_digests(spec, rec, M):
         fill = rng.random()
         pat = bytes([rng.choice([0, 0x80, 0xff])]) if fill < 0.1 else bytes(rng.getrandbits(8) for _ in range(max(L, 1)))
         check_digests({"kind": "digest", "config": M.config, "len": L, "pattern": pat}, rec, M)
-    rec.sample({"op": "hash160", "config": M.config, "impl_in_use": M.impl, "data": b"", "digest": RR.hash160(b"")})
+    if part == 0:
+        d = bytes(range(119))
+        rec.sample({"op": "hash160 / ripemd160", "config": M.config, "impl_in_use": M.impl, "data": d,
+                    "hash160": observe(M.hash.hash160, d)[1], "ripemd160": observe(lambda: M.hash.ripemd160(d).digest())[1]})
 
 
 # -- murmur -----------------------------------------------------------------------------------
@@ -257,7 +260,8 @@ def run_murmur(spec, rec, M):
             pat = bytes([rng.choice([0, 0x7f, 0x80, 0xff])]) * max(L, 1)
         check_murmur({"len": L, "pattern": pat}, _seed(rng), rec, M)
         done += 1
-    rec.sample({"op": "murmur3", "data": b"\x21\x43\x65", "seed": 0, "value": RM.murmur3_32(b"\x21\x43\x65", 0)})
+    if part == 0:
+        rec.sample({"op": "murmur3", "data": b"\x21\x43\x65", "seed": (1 << 64) + 5, "value": observe(M.bloom.murmur3, b"\x21\x43\x65", (1 << 64) + 5)[1]})
 
 
 # -- bloom ------------------------------------------------------------------------------------
@@ -317,6 +321,10 @@ def check_bloom(case, rec, M):
         rec.violation("bloom.filter_load_params_mismatch", case, params if st != "ok" else [params[1], params[2]], [k, tweak])
 
 
+def _elements(case):
+    return [it[1] + int(it[2]).to_bytes(4, "little") if it[0] == "spendable" else it[1] for it in case["items"]]
+
+
 def _rand_bloom(rng, i):
     size = rng.choice([1, 1, 2, 3, 3, 7, 8, 9, 20, 64, 100, 1000, 4500, 35999, 36000, rng.randrange(1, 50), rng.randrange(1, 36001)])
     k = rng.choice([1, 2, 3, 5, 5, 8, 11, 20, 49, 50, rng.randrange(1, 51)])
@@ -355,8 +363,9 @@ def run_bloom(spec, rec, M):
     for i in range(spec["n"]):
         c = _rand_bloom(rng, i)
         check_bloom(c, rec, M)
-        if i == 0:
-            rec.sample({"op": "BloomFilter", "size": c["size"], "k": c["k"], "tweak": c["tweak"], "n_items": len(c["items"])})
+        if i == 0 and spec["part"] == 0:
+            rec.sample({"op": "BloomFilter", "size": c["size"], "k": c["k"], "tweak": c["tweak"], "items": c["items"],
+                        "filter_bytes_head": RM.bip37_filter(_elements(c), c["size"], c["k"], int(c["tweak"]))[:32]})
 
 
 # ---------------------------------------------------------------------------------------------
